@@ -559,6 +559,26 @@ pub fn run(c: &Case) -> Outcome {
                             ck!(NodeIndexable::to_index(&fz, ids[l]) == ids[l].index() && NodeIndexable::from_index(&fz, ids[l].index()) == ids[l] && ids[l].index() < fz.node_bound(), "frozen-node-indexable", "Frozen: NodeIndexable for node {l}");
                         }
                     }
+                    // weights may be written through Frozen (IndexMut, index_twice_mut, DataMapMut); the
+                    // structure and every other weight stay as they were
+                    if n >= 2 {
+                        use petgraph::data::DataMapMut;
+                        {
+                            let mut fz = Frozen::new(&mut g);
+                            fz[ids[0]] += 1000;
+                            let (x, y) = fz.index_twice_mut(ids[0], ids[1]);
+                            *x += 1000;
+                            *y += 5000;
+                            if let Some(wt) = fz.node_weight_mut(ids[1]) {
+                                *wt += 5000;
+                            }
+                        }
+                        ck!(g[ids[0]] == 2000 && g[ids[1]] == 10001, "frozen-write", "weights written through Frozen: node 0 = {}, node 1 = {} (expected 2000, 10001)", g[ids[0]], g[ids[1]]);
+                        g[ids[0]] = 0;
+                        g[ids[1]] = 1;
+                        run_checks!(&g, &v, "Graph after writes through Frozen"; c_nodes, c_node_refs, c_edge_refs, c_neighbors);
+                        c_datamap(&g, &v, "Graph after writes through Frozen", |x| *x)?;
+                    }
                     obs.label("Graph (renumbered by removals)");
                 }};
             }
